@@ -277,6 +277,12 @@ def run_world(sc, observe=0, snapshot=True, setup=None, mutate_constraints=True,
             sim = build_sim(sc, party)
             ctx.sim = sim
             tr.sim0 = sim
+            if sc["sim"].get("json_clone"):
+                # 'equal inputs': the simulator is saved to JSON and loaded back before it ever runs
+                sim = sut.Simulator.from_json(sim.to_json())
+                sim.update_scheduler(party)
+                ctx.sim = sim
+                ctx.fired("json_clone")
             if setup is not None:
                 setup(ctx, party)
             guard = 0
@@ -289,6 +295,13 @@ def run_world(sc, observe=0, snapshot=True, setup=None, mutate_constraints=True,
                     break
                 except SchedulerCrash as c:
                     mode = c.fault.get("resume", "rerun")
+                    nw_ = ctx.sim.network
+                    if mode != "rerun" and hasattr(nw_, "waiting_queue") and (
+                            len(nw_.waiting_queue) or nw_.early_departure or nw_.swaps or nw_.never_charged or nw_.early_unplug):
+                        # the library itself warns that these StochasticNetwork attributes are not serialised: no JSON restart
+                        # is demanded while they carry state (resume in memory instead)
+                        mode = "rerun"
+                        ctx.fired("json_resume_downgraded_stochastic_state")
                     ctx.log(("resume", mode, ctx.sim.iteration))
                     info = {"mode": mode, "t": ctx.sim.iteration, "queue_empty": ctx.sim.event_queue.empty()}
                     if mode != "rerun":
